@@ -68,6 +68,11 @@ class Prover(object):
         s.add(z3.Not(claim))
         t0 = time.time()
         r = s.check()
+        if r == z3.unknown:
+            # one retry with five times the (wall-clock) limit: a loaded machine must not turn a decidable query into an inconclusive run
+            s.set('timeout', int(self.timeout_ms * 5))
+            r = s.check()
+            s.set('timeout', self.timeout_ms)
         self.res.solver_s += time.time() - t0
         self.res.obligations += 1
         verdict = str(r)
@@ -115,6 +120,10 @@ class Prover(object):
             s.add(c)
         t0 = time.time()
         r = s.check()
+        if r == z3.unknown:
+            s.set('timeout', int(self.timeout_ms * 5))
+            r = s.check()
+            s.set('timeout', self.timeout_ms)
         self.res.solver_s += time.time() - t0
         if self.cvc5_rate > 0 and r != z3.unknown and self.rng.random() < self.cvc5_rate:
             v2 = cvc5_decide(s, min(self.timeout_ms, 60000))
